@@ -61,6 +61,8 @@ ASSUMPTIONS = [
     "weights are positive; blocks where the weighted median sits within round-off of the half weight are skipped (either neighbour)",
     "the reference reduces float64(values) in float64; tolerances use the float64 epsilon except for a component whose data or weights were "
     "handed over as float32, which uses the float32 epsilon (counted as class:tolerance_from_float32_operand)",
+    "arguments a caller leaves out are judged with the DOCUMENTED defaults (tap documented=): block_split, filter(weights=None), "
+    "variance_to_weights(tol=1e-15, dtype='float64'), constructor parameters (compared with the stored ones after every __init__)",
     "the configuration of a call is the get_params() snapshot taken before the call (region=None -> bounding box of that call's points)",
 ]
 FLOORS = {
@@ -109,6 +111,10 @@ FLOORS = {
         "value_coincidence_calls:residuals": 10, "value_coincidence_calls:partly_zero": 6, "value_coincidence_calls:all_zero": 1,
         "value_coincidence_calls:nan": 2, "class:data_with_NaN": 2,
         "either_way:entries_of_blocks_with_a_NaN_member(value not judged)": 35,
+        "eval:constructor_parameters_as_documented": 1100, "eval:defaults_equal_documented_defaults_spelled_out": 16,
+        "defaulted_argument:BlockReduce.filter.weights": 54, "defaulted_argument:BlockReduce.__init__.adjust": 770,
+        "defaulted_argument:BlockReduce.__init__.center_coordinates": 410,
+        "defaulted_argument:BlockReduce.__init__.drop_coords": 540, "defaulted_argument:BlockReduce.__init__.region": 400,
     },
     "thorough": {
         "eval:filter_layout": 16800, "eval:labels_vs_reference_geometry": 16800, "eval:params_unchanged_by_filter": 16900,
@@ -158,6 +164,10 @@ FLOORS = {
         "value_coincidence_calls:residuals": 150, "value_coincidence_calls:partly_zero": 110,
         "value_coincidence_calls:all_zero": 53, "value_coincidence_calls:nan": 88, "class:data_with_NaN": 88,
         "either_way:entries_of_blocks_with_a_NaN_member(value not judged)": 920,
+        "eval:constructor_parameters_as_documented": 16400, "eval:defaults_equal_documented_defaults_spelled_out": 190,
+        "defaulted_argument:BlockReduce.filter.weights": 760, "defaulted_argument:BlockReduce.__init__.adjust": 11300,
+        "defaulted_argument:BlockReduce.__init__.center_coordinates": 6100,
+        "defaulted_argument:BlockReduce.__init__.drop_coords": 7900, "defaulted_argument:BlockReduce.__init__.region": 5900,
     },
 }
 JOBS = {"quick": 1, "thorough": 16}
@@ -167,8 +177,8 @@ CALLS_PER_CASE = 8
 
 def plan(tier):
     if tier == "quick":
-        return collections.OrderedDict(random=140, edges=32, series=42, tiny=10, refused=3, nested=8, reuse=24, inplace=14, reconfigure=30, spellings=40, many_coordinates=10, zero_weights=8, value_coincidences=12, large=2)
-    return collections.OrderedDict(random=2100, edges=480, series=640, tiny=120, refused=14, nested=100, reuse=360, inplace=210, reconfigure=450, spellings=600, many_coordinates=150, zero_weights=120, value_coincidences=180, large=18)
+        return collections.OrderedDict(random=140, edges=32, series=42, tiny=10, refused=3, nested=8, reuse=24, inplace=14, reconfigure=30, spellings=40, many_coordinates=10, zero_weights=8, value_coincidences=12, defaults=5, large=2)
+    return collections.OrderedDict(random=2100, edges=480, series=640, tiny=120, refused=14, nested=100, reuse=360, inplace=210, reconfigure=450, spellings=600, many_coordinates=150, zero_weights=120, value_coincidences=180, defaults=60, large=18)
 
 
 def value_range(values):
@@ -332,8 +342,14 @@ def install(tap, run):
                                   witness(result_data=out_data), key="sum")
                     break
 
-    tap.function(vc, "block_split")  # recorded only: the filter monitor reads the nested event
-    tap.method(verde.BlockReduce, "filter", pre=pre_filter, post=post_filter, subclasses=False)
+    def post_init(ev):
+        if type(ev.args.get("self")).__name__ == "BlockReduce":
+            blk.judge_constructor(run, ev, "BlockReduce.__init__")
+
+    # arguments the caller leaves out are judged with the DOCUMENTED defaults, not with the signature of the tree under test
+    tap.function(vc, "block_split", documented=blk.BLOCK_SPLIT_DEFAULTS)  # recorded only: the filter monitor reads the nested event
+    tap.method(verde.BlockReduce, "__init__", post=post_init, subclasses=False, documented=blk.INIT_DEFAULTS)
+    tap.method(verde.BlockReduce, "filter", pre=pre_filter, post=post_filter, subclasses=False, documented=blk.FILTER_DEFAULTS)
 
 
 # ----------------------------------------------------------------------
@@ -467,6 +483,27 @@ def _zero_weight_border(run, rng, verde):
     with warnings.catch_warnings():
         warnings.simplefilter("ignore")
         verde.BlockReduce(reduction, **kwargs).filter((east, north), data[0] if ncomp == 1 else tuple(data), weights[0] if ncomp == 1 else tuple(weights))
+
+
+def _defaults(run, rng, verde):
+    """BlockReduce(reduction, spacing=s) built with NO other argument behaves exactly like one with the documented defaults spelled out."""
+    for _ in range(CALLS_PER_CASE):
+        east, north = blk.make_points(rng, n=int(rng.integers(8, 50)))
+        spacing = float(max(np.ptp(east), np.ptp(north), 1e-3) / rng.uniform(1.3, 5.5))  # hardly ever divides the extent: 'adjust' matters
+        coords = (east, north, gen.smooth_field(rng, east, north, amplitude=30.0))  # an extra coordinate: 'drop_coords' matters
+        data = gen.smooth_field(rng, east, north, amplitude=float(10 ** rng.uniform(-1, 3)))
+        reduction = [np.mean, np.median, np.sum, np.max][int(rng.integers(0, 4))]
+        with warnings.catch_warnings():
+            warnings.simplefilter("ignore")
+            bare = verde.BlockReduce(reduction, spacing=spacing).filter(coords, data)  # weights left out as well
+            spelled = verde.BlockReduce(reduction, spacing=spacing, region=None, adjust="spacing", center_coordinates=False, shape=None,
+                                        drop_coords=True).filter(coords, data, weights=None)
+        run.evaluated("defaults_equal_documented_defaults_spelled_out")
+        if not blk.same_output(bare, spelled):
+            run.violation("defaults_equal_documented_defaults_spelled_out",
+                          "BlockReduce(%s, spacing=s).filter(coordinates, data) differs from the call with region=None, adjust='spacing', "
+                          "center_coordinates=False, drop_coords=True, weights=None spelled out" % reduction.__name__,
+                          {"spacing": spacing, "coordinates": list(coords), "data": data, "bare": bare, "spelled_out": spelled}, key="defaults")
 
 
 def _value_coincidences(run, rng, verde):
@@ -670,6 +707,9 @@ def run_case(run, tap, stream, index, rng):
 
     if stream == "large":
         _large_call(run, rng, verde, index)
+        return
+    if stream == "defaults":
+        _defaults(run, rng, verde)
         return
     if stream == "value_coincidences":
         for _ in range(CALLS_PER_CASE):
